@@ -8,19 +8,27 @@ CONSTANTS Kinds,        \* Conns -> set of kinds a connection may be accepted as
           Stalled       \* connections whose awaitables never complete (for Isolation)
 KindsQuick == [c \in Conns |-> IF c = "a" THEN {"tcp", "tty"} ELSE {"tcp", "cli"}]
 KindsLive == [c \in Conns |-> IF c = "a" THEN {"tcp", "tty"} ELSE {"tcp", "tty", "cli"}]
+KindsSim == [c \in Conns |-> IF c = "c" THEN {"tcp", "tty", "cli"} ELSE {"tcp", "tty"}]
 KindsTty == [c \in Conns |-> {"tty"}]
-VARIABLES feeds, accepts, nmsg
-mcvars == <<S, feeds, accepts, nmsg>>
-MCInit == Init /\ feeds = 0 /\ accepts = 0 /\ nmsg = 0
+VARIABLES feeds, accepts, nmsg,
+          act      \* the environment action just taken (so that simulated behaviours can be replayed on the real handlers)
+mcvars == <<S, feeds, accepts, nmsg, act>>
+MCInit == Init /\ feeds = 0 /\ accepts = 0 /\ nmsg = 0 /\ act = [op |-> "init"]
 MCNext ==
   \/ \E c \in Conns : \E k \in Kinds[c] : accepts < MaxAccepts /\ Accept(c, k) /\ accepts' = accepts + 1 /\ UNCHANGED <<feeds, nmsg>>
+                                             /\ act' = [op |-> "accept", c |-> c, k |-> k]
   \/ \E c \in Conns, it \in Items \ {"get"} : feeds < MaxFeeds /\ Feed(c, <<it, 0>>) /\ feeds' = feeds + 1 /\ UNCHANGED <<accepts, nmsg>>
+                                              /\ act' = [op |-> "feed", c |-> c, it |-> it, id |-> 0]
   \/ \E c \in Conns : "get" \in Items /\ feeds < MaxFeeds /\ nmsg < MaxMsgs /\ Feed(c, <<"get", nmsg + 1>>)
                         /\ feeds' = feeds + 1 /\ nmsg' = nmsg + 1 /\ UNCHANGED accepts
+                        /\ act' = [op |-> "feed", c |-> c, it |-> "get", id |-> nmsg + 1]
   \/ nmsg < MaxMsgs /\ DeviceSend(nmsg + 1) /\ OthersServed(nmsg + 1) /\ nmsg' = nmsg + 1 /\ UNCHANGED <<feeds, accepts>>
+                    /\ act' = [op |-> "dsend", id |-> nmsg + 1]
   \/ \E c \in Conns : nmsg < MaxMsgs /\ ClientSend(c, nmsg + 1) /\ nmsg' = nmsg + 1 /\ UNCHANGED <<feeds, accepts>>
+                        /\ act' = [op |-> "csend", c |-> c, id |-> nmsg + 1]
   \/ \E c \in Conns \ Stalled : \E i \in DOMAIN S.pend[c] : \E f \in BOOLEAN : Complete(c, i, f) /\ UNCHANGED <<feeds, accepts, nmsg>>
-  \/ Tick /\ UNCHANGED <<feeds, accepts, nmsg>>
+                        /\ act' = [op |-> "complete", c |-> c, i |-> i, fail |-> f]
+  \/ Tick /\ UNCHANGED <<feeds, accepts, nmsg>> /\ act' = [op |-> "tick"]
 MCSpec == MCInit /\ [][MCNext]_mcvars
 \* "get" relays also consume message ids: bound them through the feed budget
 P_NoDeliveryAfterEnd == [][NoDeliveryAfterEnd]_mcvars
@@ -29,7 +37,8 @@ P_NoDeliveryAfterEnd == [][NoDeliveryAfterEnd]_mcvars
 Progress ==
   \/ Tick
   \/ \E c \in Conns \ Stalled : \E i \in DOMAIN S.pend[c] : Complete(c, i, FALSE)
-LiveSpec == MCInit /\ [][MCNext]_mcvars /\ WF_mcvars(Progress /\ UNCHANGED <<feeds, accepts, nmsg>>)
+LiveSpec == MCInit /\ [][MCNext]_mcvars /\ WF_<<S, feeds, accepts, nmsg>>(Progress /\ UNCHANGED <<feeds, accepts, nmsg>>)
+MCView == <<S, feeds, accepts, nmsg>>
 Isolation == \A c \in Conns \ Stalled : <>[](NoFailYet(c) => S.wire[c] = S.routed[c])
 (* probes *)
 ProbeInv_LockWaiter == \A c \in Conns : Len(S.waiters[c]) < 1
